@@ -90,6 +90,10 @@ pub fn any_mvhd(version: u8) -> MvhdBox {
 }
 pub fn ref_mvhd(v: &MvhdBox, out: &mut [u8]) -> usize {
     let mut w = RefW::new(out);
+    ref_mvhd_w(v, &mut w);
+    w.p
+}
+pub fn ref_mvhd_w(v: &MvhdBox, w: &mut RefW) {
     let s = w.begin_full(b"mvhd", v.version, v.flags);
     if v.version == 1 {
         w.u64(v.creation_time);
@@ -105,11 +109,10 @@ pub fn ref_mvhd(v: &MvhdBox, out: &mut [u8]) -> usize {
     w.u32(v.rate.raw_value());
     w.u16(v.volume.raw_value());
     w.zeros(2 + 8);
-    ref_matrix(&mut w, &v.matrix);
+    ref_matrix(w, &v.matrix);
     w.zeros(24);
     w.u32(v.next_track_id);
     w.end(s);
-    w.p
 }
 
 // ------------------------------------------------------------------ tkhd (8.3.2)
@@ -1181,13 +1184,16 @@ pub fn any_mvex(with_mehd: Option<u8>) -> MvexBox {
 }
 pub fn ref_mvex(v: &MvexBox, out: &mut [u8]) -> usize {
     let mut w = RefW::new(out);
+    ref_mvex_w(v, &mut w);
+    w.p
+}
+pub fn ref_mvex_w(v: &MvexBox, w: &mut RefW) {
     let s = w.begin(b"mvex");
     if let Some(ref m) = v.mehd {
-        ref_mehd_w(m, &mut w);
+        ref_mehd_w(m, w);
     }
-    ref_trex_w(&v.trex, &mut w);
+    ref_trex_w(&v.trex, w);
     w.end(s);
-    w.p
 }
 /// traf: tfhd (+ tfdt) (+ trun with N samples carrying sizes and durations)
 pub fn any_traf<const N: usize>(tfdt: Option<u8>, trun: bool) -> TrafBox {
@@ -1243,13 +1249,9 @@ pub fn any_moov_trackless(mvex: bool) -> MoovBox {
 pub fn ref_moov(v: &MoovBox, out: &mut [u8]) -> usize {
     let mut w = RefW::new(out);
     let s = w.begin(b"moov");
-    let mut tmp = [0u8; 128];
-    let n = ref_mvhd(&v.mvhd, &mut tmp);
-    w.bytes(&tmp[..n]);
+    ref_mvhd_w(&v.mvhd, &mut w);
     if let Some(ref m) = v.mvex {
-        let mut t2 = [0u8; 64];
-        let n2 = ref_mvex(m, &mut t2);
-        w.bytes(&t2[..n2]);
+        ref_mvex_w(m, &mut w);
     }
     w.end(s);
     w.p
